@@ -115,10 +115,31 @@ def check_function_vcgen(P, specs, key, outdir, timeout, tier):
     return r
 
 
+def bounded_confirmation(r, sp, timeout=300):
+    """A failed obligation under loop contracts starts from an arbitrary invariant state.  Re-check the same function
+    WITHOUT loop contracts (loops unwound, small symbolic buffers): a failure found there is a real execution from the
+    function entry (modulo the callee contract stubs).  Returns (top-level failed obligations, description)."""
+    if r.backend != 'cbmc' or not r.info.get('path'):
+        return None, 'not applicable'
+    bound_buf, unwind = 64, 8
+    try:
+        res = cbmcdrv.run_cbmc(r.info, timeout=timeout, defs=('VERIF_CBMC', 'VERIF_ABSTRACT', 'VERIF_MAXBUF=%dUL' % bound_buf),
+                               unwind=unwind, unwind_assert=False, tag='.bounded')
+    except Undecided as e:
+        return None, 'bounded confirmation undecided: %s' % e
+    j = judge_obligations(res['obligations'], sp)
+    top = [o for o in j['failed'] if o['class'] not in AUXILIARY and o['class'] not in ('loop_decreases', 'unwinding')]
+    return top, 'loops unwound %d times, buffers <= %d bytes, no loop contracts: %d top-level obligations fail' % (unwind, bound_buf, len(top))
+
+
 def judge(r, sp):
+    return judge_obligations(r.obligations, sp)
+
+
+def judge_obligations(obligations, sp):
     """Split obligations of one function check into discharged / failed / tolerated / undecided."""
     out = {'discharged': [], 'failed': [], 'tolerated': [], 'vacuous': [], 'unknown': []}
-    for o in r.obligations:
+    for o in obligations:
         if o['class'] == 'vacuity':
             if o['status'] == 'FAILURE':
                 out['discharged'].append(o)      # the marker is reachable: the check is not vacuous
@@ -220,6 +241,15 @@ def run_property(pid, cfg, tier='quick', seed=0, replayer=None):
     for r, failed, j in violations:
         top = [o for o in failed if o['class'] not in AUXILIARY]
         outcome = None
+        if not top and r.backend == 'cbmc':
+            # only my own invariants / frames broke: look for a real execution that violates a top-level obligation
+            btop, bdesc = bounded_confirmation(r, specs.get(r.key))
+            if btop:
+                top = btop
+                failed = failed + btop
+                outcome = {'verdict': 'bounded-confirmation', 'detail': bdesc}
+            else:
+                outcome = {'verdict': 'undecided', 'detail': bdesc}
         if replayer is not None:
             try:
                 outcome = replayer(pid, P, specs, r, failed, outdir)
@@ -231,7 +261,7 @@ def run_property(pid, cfg, tier='quick', seed=0, replayer=None):
         path = os.path.join(REPLAYS, name + '.json')
         rep = {'property': pid, 'function': r.key, 'failed_obligations': [{k: o[k] for k in ('name', 'desc', 'class', 'status', 'location')} for o in failed],
                'checker_cmd': r.cmd, 'generated_c': r.info.get('path'), 'replay': outcome}
-        if not top and (outcome is None or outcome.get('verdict') != 'reproduced'):
+        if not top:
             # only auxiliary obligations (my invariants / frames) failed and no real execution confirms a problem
             undecided.append('%s: proof broken (auxiliary obligations %s) but no violation found by the bounded confirmation' % (
                 r.key, ', '.join(o['desc'] for o in failed[:3])))
